@@ -7,8 +7,8 @@ CONSTANTS
   MaxRestarts = 0
   MaxData = 2
   MaxLog = 12
-  KeyByCtx = FALSE
-  SubBeforeAnnounce = FALSE
+  KeyByCtx = TRUE
+  SubBeforeAnnounce = TRUE
   PatientClient = TRUE
   OwnFilter = TRUE
   RegSkipLe = TRUE
@@ -17,7 +17,7 @@ CONSTANTS
   ForceCtx = TRUE
   UnregOnce = TRUE
   CompactUnreg = TRUE
-  CompactClientUnreg = FALSE
+  CompactClientUnreg = TRUE
   Gen = FALSE
 CONSTRAINT LogBound
 VIEW mcview
